@@ -488,6 +488,78 @@ func loopCaptures(w *World) ([]loopCapture, int) {
 	return out, n
 }
 
+// ruleNoLoopCapture: the module is built with the per-loop variable semantics of Go before 1.22 (go.mod), so a closure
+// created in a loop that outlives its iteration, or a pointer handed to a function that keeps it, must not refer to a
+// variable the loop assigns: when it is used later it sees the value of a later (usually the last) iteration. On the
+// pinned tree there is no such capture; whatever the closure is for, a new one is reported.
+func ruleNoLoopCapture(c *Ctx, rule string, what string) {
+	w := c.w
+	caps, n := loopCaptures(w)
+	for _, lc := range caps {
+		c.bad(rule, fmt.Sprintf("%s/loop-capture/%s", w.fname(lc.Fn), lc.Name), w.ipos(lc.MC), "a closure created inside a loop captures variable "+lc.Name+", which is declared outside the loop and assigned in it (go.mod selects the per-loop variable semantics of Go before 1.22): when the closure runs later it sees the value of a later iteration ("+what+")")
+	}
+	// pointers to loop-carried variables handed to a function of the package that keeps them or lets a closure capture them
+	m := 0
+	for _, fn := range w.All {
+		eachInstr(fn, func(in ssa.Instruction) {
+			call, ok := in.(*ssa.Call)
+			if !ok || !sameCycle(call.Block(), call.Block()) {
+				return
+			}
+			callee := call.Call.StaticCallee()
+			if callee == nil || !w.isMain(callee) || call.Call.IsInvoke() {
+				return
+			}
+			for ai, a := range call.Call.Args {
+				al, isAl := a.(*ssa.Alloc)
+				if !isAl || sameCycle(al.Block(), call.Block()) || ai >= len(callee.Params) {
+					continue
+				}
+				assigned := false
+				for _, r := range *al.Referrers() {
+					if st, ok := r.(*ssa.Store); ok && st.Addr == ssa.Value(al) && sameCycle(st.Block(), call.Block()) {
+						assigned = true
+					}
+				}
+				if !assigned {
+					continue
+				}
+				m++
+				kept := w.keepsParam(callee, ai)
+				if !kept {
+					// captured by a function literal of the callee that is created there (and may run any time later)
+					p := callee.Params[ai]
+					if p.Referrers() != nil {
+						for _, r := range *p.Referrers() {
+							if mc, isMC := r.(*ssa.MakeClosure); isMC {
+								for _, b := range mc.Bindings {
+									if b == ssa.Value(p) {
+										kept = true
+									}
+								}
+							}
+							// or spilled into a cell that a closure captures
+							if st, isSt := r.(*ssa.Store); isSt && st.Val == ssa.Value(p) {
+								if cell, isCell := st.Addr.(*ssa.Alloc); isCell && cell.Referrers() != nil {
+									for _, rr := range *cell.Referrers() {
+										if _, isMC := rr.(*ssa.MakeClosure); isMC {
+											kept = true
+										}
+									}
+								}
+							}
+						}
+					}
+				}
+				if kept {
+					c.bad(rule, fmt.Sprintf("%s/loop-variable-address/%s", w.fname(fn), w.fname(callee)), w.ipos(call), w.fname(fn)+" hands "+w.fname(callee)+" the address of a variable its loop assigns, and "+w.fname(callee)+" keeps it (stores it, or a function literal created there captures it): what is read through it later is the value of a later iteration ("+what+")")
+				}
+			}
+		})
+	}
+	c.ok(rule, "package/loop-closures", "-", fmt.Sprintf("%d closures created inside loops and %d addresses of loop variables handed to package functions inspected", n, m))
+}
+
 // ruleLoopCaptureReaching: no escaping closure created in a loop, from whose body one of the named functions is
 // reachable, captures a variable shared by the iterations.
 func ruleLoopCaptureReaching(c *Ctx, rule string, what string, targets ...string) {
